@@ -138,6 +138,7 @@ def fimo_pvalue_case(case, ctx):
     tail = numpy.cumsum(counts[::-1])[::-1]
     total = 4.0 ** w
     n_checked = 0
+    above = False
     for row in hits.itertuples(index=False):
         si, score, p = int(row[2]), float(row[6]), float(row[7])
         q = score / bin_size
@@ -154,17 +155,45 @@ def fimo_pvalue_case(case, ctx):
             raise Violation("fimo-pvalue-column", "w=%d bin=%g eps=%g cols=%s: sequence %s score %.6g reported p=%.9g, exact tail of its bin %.9g" % (
                 w, bin_size, eps, case["cols"], seqs[si], score, p, 1.0 if k <= 0 else (0.0 if k >= len(tail) else tail[k] / total)))
         n_checked += 1
+        if int(numpy.trunc(q)) - lo >= len(tail):
+            above = True
+    if above:
+        ctx.label("window_scores_above_highest_attainable_bin")      # its p-value must be exactly 0
     ctx.extra["inner"] = n_checked
     ctx.nt(n_checked >= 2 and len(set(ip.flatten().tolist())) >= 2)
 
 
 @st.composite
+def rounddown_column(draw, bin_size, eps):
+    """A column whose best character's log-odds lies 0.3-0.49 of a bin above a bin centre: it is rounded DOWN.  Several such
+    columns put the real score of the consensus window one or more bins above the highest attainable discretised score - the
+    bins of the table whose p-value must be exactly zero."""
+    lo_k, hi_k = int(math.ceil(0.85 / bin_size)), int(math.floor(1.95 / bin_size)) - 1
+    k = draw(st.integers(lo_k, hi_k)) if hi_k >= lo_k else 1
+    v = (k + draw(st.sampled_from([0.3, 0.35, 0.4, 0.45, 0.49]))) * bin_size
+    pmax = min(0.97, max(0.45, 0.25 * 2.0 ** v - eps))
+    cmax = int(round(pmax * 10 ** 6))
+    rem = 10 ** 6 - cmax
+    a = rem // 3 - draw(st.integers(0, rem // 6))
+    b = rem // 3 - draw(st.integers(0, rem // 6))
+    others = [a, b, rem - a - b]
+    pos = draw(st.integers(0, 3))
+    return others[:pos] + [cmax] + others[pos:]
+
+
+@st.composite
 def fimo_strategy(draw):
-    w = draw(st.integers(1, 5))
+    bin_size, eps = draw(st.sampled_from([1.0, 0.5, 0.1, 0.1, 0.05])), draw(st.sampled_from([1e-4, 1e-4, 1e-3, 0.01, 0.1]))
     cols = []
-    for _ in range(w):
-        cols.append(draw(column(draw(st.sampled_from(["uniform", "onehot", "coarse", "zeros", "fine", "fine"])))))
-    case = {"cols": cols, "bin_size": draw(st.sampled_from([1.0, 0.5, 0.1, 0.1, 0.05])), "eps": draw(st.sampled_from([1e-4, 1e-4, 1e-3, 0.01, 0.1]))}
+    if draw(st.integers(0, 3)) == 0:
+        w = draw(st.integers(3, 6))
+        for _ in range(w):
+            cols.append(draw(rounddown_column(bin_size, eps)) if draw(st.integers(0, 4)) else draw(column("fine")))
+    else:
+        w = draw(st.integers(1, 5))
+        for _ in range(w):
+            cols.append(draw(column(draw(st.sampled_from(["uniform", "onehot", "coarse", "zeros", "fine", "fine"])))))
+    case = {"cols": cols, "bin_size": bin_size, "eps": eps}
     if draw(st.booleans()):
         case["pre"] = [draw(st.sampled_from([case["bin_size"], case["bin_size"], 0.25])), draw(st.sampled_from([1e-4, 1e-3, 0.01, 0.1, 0.05]))]
     return case
